@@ -36,7 +36,7 @@
 static vh::NamedCounter c_ops("ops_checked"), c_progs("programs"), c_matrix("matrix_cases"), c_probes("forked_probes"),
     c_probe_died("forked_probe_died"), c_boundary("req_ends_on_element_boundary"), c_beyond("req_beyond_content"),
     c_emptyop("copy_with_empty_operand"), c_zerolen("op_on_vector_with_zero_length_element"), c_straddle("copy_straddles_misaligned_boundaries"),
-    c_insuff("dest_view_with_too_few_slots"), c_back_right("extract_back_buf_right_aligned"), c_alloc("allocator_calls"),
+    c_insuff("dest_view_with_too_few_slots"), c_exact_dest("dest_view_with_exactly_the_needed_slots"), c_back_right("extract_back_buf_right_aligned"), c_alloc("allocator_calls"),
     c_alloc_partial("allocator_partial_grants"), c_adopt("continued_on_sub_vector"), c_view_progs("programs_bare_view"),
     c_entity_progs("programs_IOVector"), c_heap_progs("programs_new_iovector"), c_cont_copy("continuous_extract_by_copy"),
     c_skipped("copy_ops_skipped_class_known_to_die");
@@ -623,7 +623,28 @@ static void op_extract_view(Prog& P, bool back) {
     size_t n = pick_n(P, back, true, SIZE_MAX), total = P.S.m.size(), e = std::min(n, total);
     bool own = P.S.kind != K_VIEW;
     uint16_t nb0 = own ? Peek::nb(P.S.o) : 0, cap0 = own ? Peek::cap(P.S.o) : 0;
+    // the slots this extraction can need at most: one per source element it takes bytes from, plus the empty elements
+    // lying between them (they are passed on as empty pieces; a request beyond the content walks over all elements)
+    int need_max = 0;
+    {
+        const struct iovec* sv = P.S.iov();
+        int sc = P.S.cnt();
+        size_t rem = n;
+        for (int k = 0; k < sc && rem > 0; ++k) {
+            const struct iovec& el = back ? sv[sc - 1 - k] : sv[k];
+            need_max++;
+            rem -= std::min(rem, el.iov_len);
+        }
+    }
     OutView o = make_out(P, own, P.cnt0);
+    if (!o.autoalloc && need_max > 0 && P.r.chance(1, 2)) {        // a destination with exactly as many slots as needed (or one more)
+        int N = need_max + (int)P.r.below(2);
+        o.N = N;
+        o.arr = (struct iovec*)R.add(N * sizeof(struct iovec), B_ARR);
+        for (int i = 0; i < N; ++i) o.arr[i] = POISON;
+        o.v = iovector_view(o.arr, N);
+        c_exact_dest.add();
+    }
     std::string op = back ? "extract_back(n,view*)" : "extract_front(n,view*)";
     note_op(P, op.c_str(), n, o.autoalloc ? 999 : o.N);
     P.trace += (back ? " extract_back(" : " extract_front(") + num(n) + (o.autoalloc ? ",&empty_view);" : ",&view[" + std::to_string(o.N) + "]);");
@@ -634,8 +655,9 @@ static void op_extract_view(Prog& P, bool back) {
         return;
     }
     if (ret == -1) {
-        bool tolerated = o.autoalloc ? nb0 >= cap0 : o.N < P.cnt0;
-        if (!tolerated) { bad(P, op, "return", "returned -1 although the destination view has a slot for every element of the source"); return; }
+        bool tolerated = o.autoalloc ? nb0 >= cap0 : o.N < need_max;
+        if (!tolerated) { bad(P, op, "return", "returned -1 although the destination view has a slot for every piece of the extracted range",
+                              "slots " + std::to_string(o.N) + " pieces needed at most " + std::to_string(need_max)); return; }
         P.flags |= F_INSUFF; c_insuff.add();
         resync(P, op);
         return;
